@@ -305,12 +305,25 @@ theorem execEv_mono (g : Graph) : ∀ (f : Nat) (cur : Mod) (s : State) (ev : Ev
       cases e with
       | some err => exact h1
       | none =>
-        simp only
+        dsimp only
         split
         · split
-          · split
-            · exact h1
-            · exact PresMono.trans h1 (copyAll_mono g cur line _ _ s1)
+          · rename_i l _
+            have h2 : PresMono s1 (if s1.bound g (chain.headD 0) g.pathName = true then
+                fromlist g (fun s m body => runEvs (execEv g f m) s body) cur line (chain.headD 0) chain s1
+                  (l.map fun p => (p.1, none, p.2))
+                else (s1, none) : Res).1 := by
+              split
+              · exact fromlist_mono g _ hrun cur line _ chain _ s1
+              · exact PresMono.refl s1
+            generalize (if s1.bound g (chain.headD 0) g.pathName = true then
+                fromlist g (fun s m body => runEvs (execEv g f m) s body) cur line (chain.headD 0) chain s1
+                  (l.map fun p => (p.1, none, p.2))
+                else (s1, none) : Res) = r2 at h2
+            obtain ⟨s2, e2⟩ := r2
+            cases e2 with
+            | some err => exact PresMono.trans h1 h2
+            | none => exact PresMono.trans (PresMono.trans h1 h2) (copyAll_mono g cur line _ _ s2)
           · exact h1
         · exact PresMono.trans h1 (PresMono.of_eq (by simp))
     | use line root path =>
